@@ -298,3 +298,30 @@ func runC25Proactive(c *core.Check) {
 		}
 	}
 }
+
+// ---- C28-R8 (F26): a number literal is printed without an explicit plus sign -------------
+
+func init() {
+	Extend("C28", runC28Proactive,
+		Mutant{Name: "revert-F26-plus-inf-printed-with-sign", File: "internal/promql/parser/printer.go", Rule: "C28-R8",
+			Old: "	if math.IsInf(node.Val, 1) {\n		// not \"+Inf\": unary plus binds weaker than \"^\", \"+Inf ^ 2\" parses as +(Inf ^ 2)\n		return \"Inf\"\n	}\n", New: "	_ = math.IsInf\n"})
+}
+
+func runC28Proactive(c *core.Check) {
+	c.Decides += " R8 NumberLiteral.String hands its value to a general float formatter (fmt.Sprint*, strconv.FormatFloat/AppendFloat) only when it is not +Inf: these formatters write +Inf with an explicit plus sign, which is the unary operator in PromQL and binds weaker than `^` (`Inf ^ 2` would print as `+Inf ^ 2` = +(Inf ^ 2), another tree)."
+	const rule = "C28-R8"
+	c.Rule(rule, "K1 guard dominance", 1, "every fmt.Sprint*/strconv.FormatFloat/AppendFloat call in (*NumberLiteral).String is dominated by !math.IsInf(val, 1)")
+	fn := need(c, rule, "internal/promql/parser.(*NumberLiteral).String")
+	if fn == nil {
+		return
+	}
+	n := 0
+	for _, s := range core.CallsTo(fn, "fmt.Sprint", "fmt.Sprintf", "fmt.Sprintln", "fmt.Fprint*", "fmt.Append*", "strconv.FormatFloat", "strconv.AppendFloat") {
+		n++
+		c.Require(core.Holds(s.Block(), core.F("math.IsInf(*, 1)")) || core.Holds(s.Block(), core.F("math.IsInf(*, 0)")), rule, fmt.Sprintf("internal/promql/parser.(*NumberLiteral).String/format#%d", n), s.Pos(), "+Inf is not written by the general formatter",
+			"the number literal is formatted by "+core.CalleeName(s.Common())+" also when it is +Inf (facts: "+core.FactsString(s.Block())+"): the text `+Inf` starts with the unary plus operator, `Inf ^ 2` prints as `+Inf ^ 2` and parses back as +(Inf ^ 2)")
+	}
+	if n == 0 {
+		c.Undecided(rule, "internal/promql/parser.(*NumberLiteral).String/format", fn.Pos(), "no formatter call found in NumberLiteral.String")
+	}
+}
